@@ -247,7 +247,12 @@ def inline_calls(body, defs, keep=(), rounds=3):
             if has_self:
                 new = re.sub(r"(?<![\.\w])self\b", lambda _m: recv, new)
             out.append(body[i:m.start()])
-            out.append("{" + new + "}")
+            if ";" not in new and "\n" not in new.strip():
+                # a one-expression helper reads as that expression
+                e = new.strip()
+                out.append(e if re.fullmatch(r"[\w\.:]+(\(\))?(\.\w+\(\))*", e) else "(" + e + ")")
+            else:
+                out.append("{" + new + "}")
             i = cl + 1
             changed = True
         body = "".join(out)
@@ -312,3 +317,28 @@ def resolve_consts(src):
             return m.group(0)
         return str(vals[m.group(0)])
     return re.sub(r"(?<![\w:])(" + "|".join(re.escape(k) for k in sorted(vals, key=len, reverse=True)) + r")\b(?!\s*:)", rep, src)
+
+
+def resolve_aliases(body):
+    """`let x = a.b.c;` (a plain path) and `let Self { f, g, .. } = self;` are read through:
+    later uses of `x` become `a.b.c`, of `f` become `self.f`.  Textual, for the recognisers."""
+    for _ in range(4):
+        m = None
+        for mm in re.finditer(r"\blet\s+(\w+)\s*(?::\s*[^=;]+)?=\s*((?:self|[A-Za-z_]\w*)(?:\.\w+)+)\s*;", body):
+            m = mm
+            break
+        if not m:
+            break
+        var, path = m.group(1), m.group(2)
+        head, tail = body[:m.start()], body[m.end():]
+        tail = re.sub(r"(?<![\.\w])" + re.escape(var) + r"\b(?!\s*:)", lambda _m: path, tail)
+        body = head + tail
+    m = re.search(r"\blet\s+Self\s*\{([^}]*)\}\s*=\s*self\s*;", body)
+    if m:
+        names = [x.strip() for x in m.group(1).split(",") if x.strip() and x.strip() != ".."]
+        head, tail = body[:m.start()], body[m.end():]
+        for nme in names:
+            if re.fullmatch(r"\w+", nme):
+                tail = re.sub(r"(?<![\.\w])" + re.escape(nme) + r"\b(?!\s*:)", lambda _m, n=nme: "self." + n, tail)
+        body = head + tail
+    return body
